@@ -28,6 +28,7 @@ COMPONENTS = {
     "real": ["spsdk.sbfile.sb2.images.BootImageV20 / BootImageV21 (export and parse)", "spsdk.sbfile.sb2.sections.BootSectionV2 / CertSectionV2", "spsdk.sbfile.sb2.commands (13 command classes)", "spsdk.sbfile.sb2.headers.ImageHeaderV2", "spsdk.utils.crypto.cert_blocks.CertBlockV1", "spsdk.crypto.symmetric (Counter, key wrap)", "McuBoot.receive_sb_file + protocol + device classes (as C10)"],
     "stub": ["ROM loader (independent model c04/rom2.py, validated on elftosb-made files in golden/sb2)", "bootloader device and link (C10 models)", "clock"],
 }
+MEASURES = {"distinct_schedules": "distinct image-parameter signatures (version, signing, key, SHA flag, explicit parameters, section geometry)", "distinct_states": "not measured (0)", "sim_time_s": "simulated time incl. link deliveries"}
 ASSUMPTIONS = [
     "the ROM-loader model is written from the SB2 format description and must accept the elftosb-made reference files under golden/sb2 before any run counts",
     "sections are decoded up to image_blocks regardless of the LAST flag (SPSDK and elftosb set it on every section)",
